@@ -2,18 +2,18 @@
 # mix entries: (profile, variant, share).  nontrivial: list of alternatives, each a list of "probe" or "probe>=N" terms.
 prop("DEV", mix=[("base", "default", 1.0)], quick_s=20, claims_all=True, rule="dev profile", nontrivial=[])
 
-prop("C01", opts={"memprop": "C01"}, also=["C04/wrong-response", "C04/missing-response", "C11/C01:.*"],
-     mix=[("c01", "default", 3), ("c01", "small", 2), ("c01", "batch1", 1), ("base", "default", 1), ("c11", "wbuf", 1)],
-     quick_mix=[("c01", "default", 2), ("c01", "small", 1), ("c11", "wbuf", 0.7)],
+prop("C01", opts={"memprop": "C01"}, also=["C04/wrong-response", "C04/missing-response", "C11/C01:.*", "C10/.*"],
+     mix=[("c01", "default", 3), ("c01", "small", 2), ("c01", "batch1", 1), ("base", "default", 1), ("c11", "wbuf", 1), ("c10", "wbuf", 0.7)],
+     quick_mix=[("c01", "default", 2), ("c01", "small", 1), ("c11", "wbuf", 0.7), ("c10", "wbuf", 0.5)],
      quick_s=25, thorough_s=600,
      rule="seeded plans of add/remove/change/fetch/unfetch/connect/disconnect by 2-6 peers on raw, unix and WebSocket transports, random segmentation and event batching; "
           "every frame is matched against the reference model and per-fetch replicas are compared at every quiescent point. non-trivial: at least one fetch received a notification; distinct by trace hash",
      nontrivial=[["notify_add"]],
      required_probes=["add_then_fetch", "notify_change", "notify_remove", "unfetch_with_live_elements", "owner_disconnect_with_subscribers", "multi_message_read"])
 
-prop("C03", opts={"memprop": "C03"}, also=["C14/wrong-deadline", "C14/early-expiry", "C14/no-timeout-answer", "C05/missing-response", "C02/unexpected-response", "C02/missing-response"],
-     mix=[("c03", "default", 3), ("c03", "small", 2), ("c03", "batch1", 1)],
-     quick_mix=[("c03", "default", 2), ("c03", "small", 1)],
+prop("C03", opts={"memprop": "C03"}, also=["C14/wrong-deadline", "C14/early-expiry", "C14/no-timeout-answer", "C05/missing-response", "C02/unexpected-response", "C02/missing-response", "C10/.*"],
+     mix=[("c03", "default", 3), ("c03", "small", 2), ("c03", "batch1", 1), ("c10", "wbuf", 0.7)],
+     quick_mix=[("c03", "default", 2), ("c03", "small", 1), ("c10", "wbuf", 0.5)],
      quick_s=25, thorough_s=600,
      rule="seeded plans of set/call by several callers to several owners with reply policies (result, error, late, never, duplicate, forged), bystander churn and deadline crossings; "
           "non-trivial: at least one routed request reached a final outcome (owner answer, timeout, owner gone); distinct by trace hash",
@@ -122,9 +122,9 @@ prop("C12", also=["C10/.*", "C07/hygiene/.*"],
      nontrivial=[["ws_upgraded", "ws_ping"], ["ws_upgraded", "ws_violation_1002"], ["ws_upgraded", "ws_close_valid"], ["ws_upgraded", "ws_violation_1007"], ["ws_upgraded", "ws_fragment"]],
      required_probes=["ws_upgraded", "ws_ping", "ws_pong_matched", "ws_pong_in", "ws_close_valid", "ws_violation_1002", "ws_violation_1007", "ws_violation_1002_or_1007", "ws_fragment", "ws_binary", "ws_close_from_daemon:1002", "ws_close_from_daemon:1007"])
 
-prop("C09",
-     mix=[("c09", "default", 3), ("c09", "small", 2), ("c09", "batch1", 0.5)],
-     quick_mix=[("c09", "default", 2), ("c09", "small", 1)],
+prop("C09", also=["C10/.*"],
+     mix=[("c09", "default", 3), ("c09", "small", 2), ("c09", "batch1", 0.5), ("c10", "wbuf", 0.7)],
+     quick_mix=[("c09", "default", 2), ("c09", "small", 1), ("c10", "wbuf", 0.5)],
      quick_s=30, thorough_s=600, opts={"memprop": "C09"},
      rule="differential: each seeded plan (1-4 raw, unix and WebSocket connections; well-formed and hostile JSON-RPC, JSON cut short and followed by its completion, zero lengths, messages that exactly fill the read buffer, lengths above the maximum) "
           "is executed twice on the simulated kernel - once with every message delivered whole, one readiness event per batch, and once with the same bytes cut at random (down to single bytes, across length-prefix, message, header-line and frame "
